@@ -66,6 +66,10 @@ Replay(st, log, keep) ==
   IN F[Len(log)]
 
 TxView == [k \in Keys |-> IF tx.ov[k] # Unset THEN tx.ov[k] ELSE store[k]]
+\* the transaction's net effect as a sequence of <<key, value>> writes
+OvSeq == LET F[i \in 0 .. NK] == IF i = 0 THEN <<>>
+                                  ELSE IF tx.ov[i-1] # Unset THEN Append(F[i-1], <<i-1, tx.ov[i-1]>>) ELSE F[i-1]
+         IN F[NK]
 
 LiveIn(view, lo, hi) == {k \in Keys : lo <= k /\ k < hi /\ view[k] # Absent}
 MinOf(S) == CHOOSE x \in S : \A y \in S : x <= y
@@ -226,13 +230,15 @@ TxHas(k) ==
 \* outcome "ok": all writes become visible at once; "fail": nothing changes, the transaction stays open.
 TxCommit(outcome) ==
   /\ IF ~tx.open
-     THEN res' = <<IF mode = "closed" THEN "closed" ELSE "txdone">> /\ UNCHANGED <<store, tx>>
+     THEN res' = <<IF mode = "closed" THEN "closed" ELSE "txdone">> /\ UNCHANGED <<store, tx, limbo>>
      ELSE IF outcome = "ok"
      THEN /\ res' = <<"none">>
           /\ store' = TxView
           /\ tx' = NoTx
-     ELSE /\ res' = <<"fail">> /\ UNCHANGED <<store, tx>>
-  /\ UNCHANGED <<snaps, its, mode, ro, limbo>>
+          /\ limbo' = IF limbo.log = <<>> THEN limbo     \* a commit is a write like any other for the limbo replay
+                      ELSE [limbo EXCEPT !.log = Append(@, [ops |-> OvSeq, st |-> "ok"])]
+     ELSE /\ res' = <<"fail">> /\ UNCHANGED <<store, tx, limbo>>
+  /\ UNCHANGED <<snaps, its, mode, ro>>
 
 TxDiscard ==
   /\ tx' = NoTx
@@ -286,5 +292,22 @@ BufferIntact(same) ==
   /\ same
   /\ res' = <<"intact">>
   /\ UNCHANGED <<store, snaps, its, tx, mode, ro, limbo>>
+
+
+\* C08: under storage faults a call may fail outright.  A failed read, compaction,
+\* OpenTransaction, transaction write or Reopen returns an error and changes nothing
+\* (a failed transaction write leaves the overlay as it was: the client must discard).
+FailedCall ==
+  /\ res' = <<"fail">>
+  /\ UNCHANGED <<store, snaps, its, tx, mode, ro, limbo>>
+
+\* Close that reports a storage error still closes.
+CloseFailed ==
+  /\ mode = "open"
+  /\ res' = <<"fail">>
+  /\ mode' = "closed"
+  /\ tx' = NoTx
+  /\ snaps' = [h \in Dom(snaps) |-> [snaps[h] EXCEPT !.gone = TRUE]]
+  /\ UNCHANGED <<store, its, ro, limbo>>
 
 =============================================================================
